@@ -21,6 +21,7 @@ import (
 	"fmt"
 	"math"
 	"os"
+	"path/filepath"
 	"sort"
 	"strings"
 	"sync"
@@ -84,6 +85,7 @@ type caseDesc struct {
 	Ops      []hop    `json:"ops"`
 	Shape    string   `json:"shape"`
 	Shapes   []string `json:"shapes,omitempty"`
+	Info     []string `json:"info,omitempty"`
 }
 
 func lbl(i int) labels.Labels { return labels.FromStrings("__name__", "m", "s", fmt.Sprintf("s%d", i)) }
@@ -151,6 +153,7 @@ type runner struct {
 	created  map[int]int // per series index: memSeries created through appenders so far
 	dupRefs  bool        // some label set has had two refs
 	lastWalk string
+	info     []string
 	haveWalk bool
 }
 
@@ -307,6 +310,7 @@ func (r *runner) classify(w walkT) []string {
 			k, st, _ := serLast(s)
 			if (k != 0) != (nc.LastKind != 0) || st != nc.LastStale {
 				r.classes["info:last-value-fields-differ-from-newest-chunk"]++
+				r.info = append(r.info, fmt.Sprintf("step %d ref %d: last-value fields kind=%d stale=%v, newest chunk kind=%d stale=%v", len(r.descs), s.Ref, k, st, nc.LastKind, nc.LastStale))
 				if os.Getenv("C52_TRACE") != "" {
 					fmt.Printf("    !! ref=%d last-value fields kind=%d stale=%v, newest chunk kind=%d stale=%v\n", s.Ref, k, st, nc.LastKind, nc.LastStale)
 				}
@@ -727,8 +731,36 @@ func (r *runner) doEvict(o hop, staleOnly bool) {
 	r.emit(o, fmt.Sprintf("REvict %s %s %s", gallina.Bool(staleOnly), gl(refs), gi(maxt)), after, "")
 }
 
+// damageSnapshot cuts the last chunk snapshot's segment file in half (probe only, C52_PROBE).
+func damageSnapshot(dir string) string {
+	ms, _ := filepath.Glob(filepath.Join(dir, "chunk_snapshot.*", "*"))
+	if len(ms) == 0 {
+		return "no snapshot"
+	}
+	sort.Strings(ms)
+	f := ms[len(ms)-1]
+	st, err := os.Stat(f)
+	if err != nil {
+		return err.Error()
+	}
+	if err := os.Truncate(f, 1500); err != nil {
+		return err.Error()
+	}
+	return fmt.Sprintf("%s cut from %d to %d bytes", filepath.Base(f), st.Size(), 1500)
+}
+
 func (r *runner) doRestart(o hop) {
-	if err := r.d.Reopen(); err != nil {
+	if o.Note == "damage-snapshot" {
+		if err := r.d.DB.Close(); err != nil {
+			panic(err)
+		}
+		fmt.Println("probe:", damageSnapshot(r.d.Dir))
+		d, err := tsdbx.Open(r.d.Dir, r.opt)
+		if err != nil {
+			panic(err)
+		}
+		r.d = d
+	} else if err := r.d.Reopen(); err != nil {
 		panic(fmt.Sprintf("reopen: %v", err))
 	}
 	r.restarts++
@@ -762,7 +794,16 @@ func (r *runner) doRestart(o hop) {
 	}
 	extra := int64(0)
 	if r.dupRefs {
-		extra = f2i(after.c.Chunks) - (recount - snapTotal)
+		// at most one dropped head chunk per additional series record of a label set
+		bound := int64(0)
+		for _, n := range r.created {
+			if n > 1 {
+				bound += int64(n - 1)
+			}
+		}
+		if e := f2i(after.c.Chunks) - (recount - snapTotal); e >= 0 && e <= bound {
+			extra = e
+		}
 	}
 	if snapTotal > 0 {
 		r.shapes["snapshot-head-chunks-uncounted"] = true
@@ -1030,6 +1071,9 @@ func corpus() []fixed {
 		{name: "two-appenders-open", n: 2, opt: tsdbx.Options{BlockRange: blockRange}, ops: []hop{
 			{Op: "open"}, {Op: "open"}, {Op: "append", App: 0, Req: fl(0, 1000)}, {Op: "append", App: 1, Req: fl(1, 1000)},
 			{Op: "truncate", Mint: 2000}, {Op: "commit", App: 1}, {Op: "rollback", App: 0}, {Op: "truncate", Mint: 2100}}},
+		{name: "wal-duplicate-series-record", n: 1, opt: tsdbx.Options{BlockRange: blockRange}, ops: cat(
+			tx(0, true, fl(0, 978), fl(0, 987)), []hop{{Op: "truncate", Mint: 998}}, tx(1, true, fl(0, 1009)),
+			[]hop{{Op: "restart"}, {Op: "truncate", Mint: 1500}})},
 	}
 }
 
@@ -1037,7 +1081,7 @@ func main() {
 	f := gallina.ParseFlags()
 	meta := gallina.NewMeta("C52", f.Seed, f.Tier)
 	meta.Rule = "fixed corpus + seeded single-threaded histories (6-30 generator steps = 15-120 recorded steps) over 1-5 series on a real tsdb.DB (block range 100, samples per chunk in {4,8,120}, OOO window in {0,60,1000}, OOO cap in {4,32}, chunk snapshot on/off); after every recorded step the reported numbers and a walk of the head are compared; a history is non-trivial when at least one sample landed in the head and at least one series-removing or restarting step changed the set of series or chunks; distinct by the printed step list"
-	cf := &gallina.CaseFile{Dir: f.Out, Type: "case", PerShard: 10,
+	cf := &gallina.CaseFile{Dir: f.Out, Type: "case", PerShard: 50,
 		Preamble: "From Coq Require Import List ZArith Uint63.\nFrom Verif Require Import model.HeadStats corr.CorrC52.\nImport ListNotations.\nOpen Scope uint63_scope.\n",
 		Footer:   gallina.StdFooter}
 	type outcome struct {
@@ -1117,7 +1161,7 @@ func main() {
 			shape = strings.Join(shapes, "+")
 		}
 		cd := caseDesc{Seed: f.Seed, Index: idx, Series: n, OOOWin: opt.OOOWindow, OOOCap: opt.OOOCapMax, SPC: opt.SamplesPerChunk,
-			Snapshot: opt.Snapshot, Ops: r.descs, Shape: shape, Shapes: shapes}
+			Snapshot: opt.Snapshot, Ops: r.descs, Shape: shape, Shapes: shapes, Info: r.info}
 		if fx != nil {
 			cd.Corpus = fx.name
 		}
@@ -1126,6 +1170,19 @@ func main() {
 	}
 
 	cp := corpus()
+	if os.Getenv("C52_PROBE") != "" { // not part of the check: a damaged chunk snapshot (see notes)
+		var reqs []*req
+		for i := 0; i < 40; i++ {
+			reqs = append(reqs, fl(i, 1000))
+		}
+		var stale []*req
+		for i := 0; i < 40; i++ {
+			stale = append(stale, st(i, 1010))
+		}
+		cp = []fixed{{name: "probe-damaged-snapshot", n: 40, opt: tsdbx.Options{BlockRange: blockRange, Snapshot: true}, ops: cat(
+			tx(0, true, reqs...), tx(1, true, stale...), []hop{{Op: "restart", Note: "damage-snapshot"}})}}
+		os.Setenv("C52_ONLY", "0")
+	}
 	if v := os.Getenv("C52_ONLY"); v != "" { // debugging aid: run one generated case
 		var idx int
 		fmt.Sscan(v, &idx)
@@ -1140,7 +1197,7 @@ func main() {
 		fmt.Println(o.cd.Shapes)
 		return
 	}
-	total := len(cp) + f.Count(40, 2500)
+	total := len(cp) + f.Count(40, 1500)
 	outs := make([]outcome, total)
 	var wg sync.WaitGroup
 	sem := make(chan struct{}, 8)
